@@ -274,7 +274,7 @@ Proof.
   destruct (get_chan s c h) as [ch|] eqn:Hch; [|exact H].
   destruct m; unfold ok, refuse.
   - (* MChannelOpen *) destruct (ch_status ch); qm_leaf.
-  - (* MChannelClose *) cbn [fst]. apply QI_channel_close. sq.
+  - (* MChannelClose *) cbn [fst]. apply QI_channel_close. exact H.
   - (* MChannelCloseOk *) cbn [fst]. destruct (fx_closeok_releases fx); [apply QI_channel_close|]; sq.
   - (* MChannelFlow *) cbn [fst]. destruct (Bool.eqb _ _); [exact H|]. destruct a; sq.
   - (* MExDeclare *) destruct (extype_of type); [|exact H].
